@@ -261,8 +261,52 @@ def run_memcheck(case):
     return {"verdict": HELD, "cov": cov, "nt": "memcheck:%d:%d" % (i % 2, len(files))}
 
 
+def run_dirs(case):
+    """Import paths are relative to the importing file: modules of the same name in several directories (one nested below the
+    importer's), in every file order. The program must bind to the sibling file, see only what that file exports, and a name
+    that exists only in another directory is not found (E470)."""
+    import itertools
+    def util(v, extra=""):
+        # public functions are global symbols: the file of the other directory exports other names
+        return "pub fn %s() -> i32\n{\n\treturn: %d\n}\n%s" % ("scale" if v == 3 else "zoom", v, extra)
+    leak = "\npub fn offset() -> i32\n{\n\treturn: 1000\n}\n"
+    main = "import \"util.pn\";\n\nfn main() -> i32\n{\n\treturn: scale() * 7\n}\n"
+    uses_offset = "import \"util.pn\";\n\nfn main() -> i32\n{\n\treturn: scale() + offset()\n}\n"
+    layouts = [
+        ("nested_below", [("app/main.pn", main), ("app/util.pn", util(3)), ("app/geo/util.pn", util(10, leak))], ("ok", 21)),
+        ("nested_two_levels", [("app/main.pn", main), ("app/util.pn", util(3)), ("app/a/b/util.pn", util(10, leak))], ("ok", 21)),
+        ("sibling_dirs", [("app/main.pn", main), ("app/util.pn", util(3)), ("lib/util.pn", util(10, leak))], ("ok", 21)),
+        ("above", [("app/sub/main.pn", main), ("app/sub/util.pn", util(3)), ("app/util.pn", util(10, leak))], ("ok", 21)),
+        ("top_and_nested", [("main.pn", main), ("util.pn", util(3)), ("geo/util.pn", util(10, leak))], ("ok", 21)),
+        ("leak_nested", [("app/main.pn", uses_offset), ("app/util.pn", util(3)), ("app/geo/util.pn", util(10, leak))], ("rejected", None)),
+        ("only_nested", [("app/main.pn", main), ("app/geo/util.pn", util(10))], ("rejected", 470)),
+        ("only_nested_top", [("top.pn", main), ("geo/util.pn", util(10))], ("rejected", 470)),
+        ("only_sibling_dir", [("app/main.pn", main), ("lib/util.pn", util(10))], ("rejected", 470)),
+        ("explicit_subdir", [("app/main.pn", main.replace("util.pn", "geo/util.pn").replace("scale()", "zoom()")), ("app/util.pn", util(3)), ("app/geo/util.pn", util(10))],
+         ("ok", 70)),
+    ]
+    out = []
+    for name, files, (want, value) in layouts:
+        for order in itertools.permutations(files):
+            got = outcome(list(order))
+            replay = {"files": [list(f) for f in order], "layout": name, "expected": [want, value]}
+            cov = {"directory_layout_orders": 1}
+            if got[0] == "crash":
+                out.append({"verdict": VIOLATED, "sig": "directories (%s): %s" % (name, got[1]), "detail": got[1], "replay": replay, "cov": cov})
+            elif want == "ok" and (got[0] != "ok" or got[1][1] != value):
+                out.append({"verdict": VIOLATED, "sig": "import binds to a file of another directory or fails (%s)" % name,
+                            "detail": {"expected_exit_code": value, "observed": repr(got[:2])[:200]}, "replay": replay, "cov": cov})
+            elif want == "rejected" and (got[0] != "rejected" or (value is not None and value not in got[1])):
+                out.append({"verdict": VIOLATED, "sig": "import of a name that exists only in another directory is %s (%s)"
+                            % ("accepted" if got[0] == "ok" else "rejected with %s" % list(got[1]), name),
+                            "detail": repr(got[:2])[:200], "replay": replay, "cov": cov})
+            else:
+                out.append({"verdict": HELD, "nt": "dirs:%s" % name, "cov": cov})
+    return out
+
+
 def run_case(case):
-    return {"split": run_split, "vis": run_visibility, "hist": run_history, "memcheck": run_memcheck}[case[0]](case)
+    return {"split": run_split, "vis": run_visibility, "hist": run_history, "memcheck": run_memcheck, "dirs": run_dirs}[case[0]](case)
 
 
 def replay_file(path):
@@ -293,6 +337,7 @@ def main(tier, seed, replay=None):
     cases += [("vis", seed, i) for i in range(72 if q else 720)]
     cases += [("hist", seed, i) for i in range(250 if q else 6000)]
     cases += [("memcheck", seed, i) for i in range(16 if q else 320)]
+    cases.append(("dirs",))
     common.ensure_worker("rel")
     for r in common.run_sharded(run_case, cases):
         if r.get("verdict") is None and "harness_error" not in r:
